@@ -4,7 +4,7 @@ from vf.core import B, cstr, cZ, cbool, clist, copt, cpair
 PID = "C18"
 MODULES = ["Prelude", "C13_Model", "C19_Model", "C18_Model", "C18_Spec", "C18_Check"]
 PROPS_MODULE = "C18_Properties"
-THEOREMS = ["C18_live_kept", "C18_orphan_upstream_removed", "C18_live_kept_refuted", "C18_reclaimed",
+THEOREMS = ["C18_live_kept", "C18_takeover_keeps_live", "C18_orphan_upstream_removed", "C18_live_kept_refuted", "C18_reclaimed",
             "C18_reachable_inv", "C18_reclaimed_refuted", "C18_capacity_returns"]
 EVAL = "C18_Check.eval"
 CLAUSES = ["agree", "live", "reclaimed", "capacity"]
@@ -20,7 +20,8 @@ TRUSTED_BASE = [
     "is an observed input of the Report operation; its arithmetic is property C07)",
 ]
 ASSUMPTIONS = [
-    "one limiter server leading every shard, local store; leadership changes are property C13",
+    "one limiter replica and one shard, API-backed store in write-through mode over the fake clientset; the replica "
+    "may lose and regain the shard (StopLeading / StartLeading = the elector callbacks); who leads is property C13",
     "a gateway uses one identity for heartbeats, reports (Spec.Instance) and acquires (clientSets.ClientID)",
     "request ids of acquires increase (no RequestIDTooOld)",
     "state recorded for an upstream that left the lister is outside the live clause (the unknown-condition pass "
@@ -57,6 +58,8 @@ def ADV(dt):
     return {"op": "advance", "dt": dt}
 
 
+STOP = {"op": "stoplead"}
+START = {"op": "startlead"}
 TT = {"op": "ticktimeout"}
 TU = {"op": "tickunknown"}
 
@@ -120,6 +123,15 @@ def corpus():
     cs.append(saturated([b"g1", b"g2"], [b"g2"], 11, 4, 1000, False))
     cs.append(saturated([b"g1", b"g2", b"g3"], [b"g2"], 12, 3, 20, True, ups=(b"a", b"b"), newcomer=b"g-4"))
     cs.append(saturated([b"g1", b"g2", b"g3"], [b"g1", b"g3"], 12, 3, 100, True))
+    # take-over: the replica loses the shard, instances keep heartbeating the standby, it regains the shard and loads
+    # the persisted conditions; the unknown-condition pass right after must keep the live g1 and reclaim the dead g2
+    cs.append(case([H(b"g1"), H(b"g2"), R(b"a", b"g1"), R(b"a", b"g1"), R(b"a", b"g2"), R(b"b", b"g2"), A(b"a", b"g1", 3),
+                    STOP, R(b"a", b"g1"), A(b"a", b"g1", 1), ADV(2000), H(b"g1"), TU, ADV(2000), H(b"g1"), TT, TU,
+                    START, TU, TT, R(b"a", b"g1"), A(b"a", b"g1", 2), START, STOP, STOP, H(b"g1"), START, TU,
+                    ADV(3500), TT, TU]))
+    # a standby from the very beginning, upstream changes while standing by
+    cs.append(case([STOP, H(b"g1"), SET(b"c"), GONE(b"b"), ADV(1000), H(b"g1"), TT, START, R(b"c", b"g1"), R(b"b", b"g1"), A(b"c", b"g1", 2),
+                    TU, STOP, ADV(3500), TT, START, TU, R(b"a", b"g1")]))
     # upstream removed from the lister without the handler running: the unknown-condition pass deletes it as
     # a whole (also the state of live instances of that upstream), the other upstream is untouched; re-added later
     cs.append(case([H(b"g1"), H(b"g2"), R(b"a", b"g1", wc=True), R(b"b", b"g1", wc=True), R(b"a", b"g2"), A(b"a", b"g1", 3), A(b"b", b"g1", 2),
@@ -139,6 +151,7 @@ def gen_hist(rng, boundary=False):
     if boundary and rng.chance(1, 2):
         insts.append(b"state")
     churn = rng.chance(1, 3)      # upstream removal / re-creation in this history
+    failover = rng.chance(1, 3)   # the replica loses and regains the shard in this history
     listed = set(ups)
     cmax = rng.choice([5, 10, 10, 20])
     alive = {}            # instance -> True (heartbeating) / False (silent)
@@ -182,6 +195,10 @@ def gen_hist(rng, boundary=False):
                 else:
                     ops.append(A(rng.choice(ups), i, rng.randint(0, 5)))
                     hbt[i] = now
+        if failover and rng.chance(1, 4):
+            ops.append(STOP if rng.chance(1, 2) else START)
+            if rng.chance(1, 2):
+                ops.append(TU)
         if churn and rng.chance(1, 4):
             u = rng.choice(ups + [b"c"])
             if u in listed and rng.chance(2, 3):
@@ -239,6 +256,15 @@ COQ_SHARD = 20
 # ---------------------------------------------------------------- Coq printing
 def c_op(o, s):
     k = o["op"]
+    if k == "stoplead":
+        return "StopLeading"
+    if k == "startlead":
+        return "StartLeading"
+    return "(Op %s)" % c_op0(o, s)
+
+
+def c_op0(o, s):
+    k = o["op"]
     if k == "hb":
         return "(Heartbeat %s)" % cstr(o["i"])
     if k == "report":
@@ -262,7 +288,8 @@ def c_res(o, s):
     r = s["res"]
     if r == "acc":
         return "(RAcc %s)" % cbool(s.get("acc", False))
-    return {"nil": "RNil", "ok": "ROk", "notfound": "RNotFound"}.get(r, "(RAcc false)" if o["op"] == "acquire" else "RNotFound")
+    return {"nil": "RNil", "ok": "ROk", "notfound": "RNotFound", "notleader": "RNotLeader"}.get(
+        r, "(RAcc false)" if o["op"] == "acquire" else "RNotFound")
 
 
 def c_obs(o, s):
@@ -274,8 +301,9 @@ def c_obs(o, s):
     sumc = clist([cpair(cstr(x["u"]), cZ(x["s"])) for x in s.get("sumc") or []])
     cnts2 = clist([cpair(cstr(x["u"]), cpair(clist([cpair(cstr(e["i"]), cZ(e["c"])) for e in x["entries"]]), cZ(x["total"])))
                    for x in s.get("cnts2") or []])
-    return "(mkObs %s %s %s %s %s %s %s %s %s)" % (c_res(o, s), clist([cstr(x) for x in s["clients"]]), conds, sums, cnts, qc,
-                                                sumc, cnts2, cZ(s.get("other", 0)))
+    pers = clist([cpair(cpair(cstr(c["u"]), cstr(c["i"])), cpair(cZ(c["q"]), cstr(c["lab"]))) for c in s.get("pers") or []])
+    return "(mkObs %s %s %s %s %s %s %s %s %s %s)" % (c_res(o, s), clist([cstr(x) for x in s["clients"]]), conds, sums, cnts, qc,
+                                                   sumc, cnts2, cZ(s.get("other", 0)), pers)
 
 
 def coq_case(case, obs):
@@ -283,7 +311,7 @@ def coq_case(case, obs):
     cfg = "(mkCfg %s %s)" % (clist([cstr(u) for u in case["ups"]]), cZ(case["cmax"]))
     if steps is None or len(steps) != len(case["ops"]):
         # harness panic: a one-step trace the model cannot agree with
-        return "(CHist %s [(TickTimeout, mkObs ROk [] [] [] [] [] [] [] 0)])" % cfg
+        return "(CHist %s [(Op TickTimeout, mkObs ROk [] [] [] [] [] [] [] 0 [])])" % cfg
     tr = [cpair(c_op(o, s), c_obs(o, s)) for o, s in zip(case["ops"], steps)]
     return "(CHist %s %s)" % (cfg, clist(tr))
 
@@ -310,6 +338,8 @@ def stats(case, obs):
     if not steps:
         return ["panic"]
     labs = ["hist:len<=%d" % (20 * ((len(case["ops"]) + 19) // 20)), "ups=%d" % len(case["ups"])]
+    if any(o["op"] in ("stoplead", "startlead") for o in case["ops"]):
+        labs.append("pattern:leadership-change")
     if any(o.get("sat") for o in case["ops"]):
         labs.append("pattern:saturated-steady-reporters")
     prev = None
